@@ -1,6 +1,7 @@
 package main
 
 import (
+	"os"
 	"fmt"
 	"go/constant"
 	"go/token"
@@ -518,6 +519,9 @@ func (s *Session) enterBlock(fr *Frame, b *ssa.BasicBlock) *State {
 		e := fr.edges[[2]int{p.Index, b.Index}]
 		if e == nil {
 			continue
+		}
+		if e.cond.S == "false" {
+			continue // edge statically dead (constant branch condition): its values do not reach the phis
 		}
 		// a pred may appear twice (both branches to same block): distinguish by position
 		conds = append(conds, e.cond)
@@ -1098,6 +1102,9 @@ func (s *Session) step(fr *Frame, in ssa.Instruction, st *State) {
 		fr.vals[x] = v
 	case *ssa.MakeInterface:
 		fr.vals[x] = s.makeInterface(st, s.valueOf(fr, x.X), x.X.Type(), x.Type())
+		if s.topContract != nil && len(s.topContract.Dispatch) > 0 {
+			s.dispatchFacts(fr, st, fr.vals[x], x.X.Type(), x.Type())
+		}
 	case *ssa.TypeAssert:
 		s.typeAssert(fr, x, st)
 	case *ssa.Extract:
@@ -1209,6 +1216,10 @@ func (s *Session) unop(fr *Frame, x *ssa.UnOp, st *State) {
 	switch x.Op {
 	case token.MUL: // load
 		loc := s.toLoc(v)
+		if os.Getenv("GOVC_DEBUG") != "" && loc.Kind == "A" {
+			_, has := s.litSlices[loc.Ref.S]
+			fmt.Fprintf(os.Stderr, "load A ref=%s idx=%v lit=%v\n", loc.Ref.S, loc.Idx, has)
+		}
 		if loc.Kind == "A" && len(loc.Idx) == 1 && isNumeral(loc.Idx[0].S) {
 			if cells, ok := s.litSlices[loc.Ref.S]; ok {
 				if cv, ok2 := cells[atoi(loc.Idx[0].S)]; ok2 && (cv.Clo != nil || cv.Fn != nil) {
